@@ -32,10 +32,12 @@ import (
 	"github.com/fiorix/go-diameter/diam/dict"
 	"github.com/gin-gonic/gin"
 	"github.com/h2non/gock"
+	"github.com/jlaffaye/ftp"
 	"github.com/sirupsen/logrus"
 
 	"github.com/free5gc/chf/cdr/asn"
 	"github.com/free5gc/chf/cdr/cdrType"
+	chf_cgf "github.com/free5gc/chf/internal/cgf"
 	chf_context "github.com/free5gc/chf/internal/context"
 	"github.com/free5gc/chf/internal/logger"
 	"github.com/free5gc/chf/internal/sbi"
@@ -147,6 +149,7 @@ type WorldCfg struct {
 	OAuth      bool      `json:"oauth,omitempty"`
 	NrfCert    string    `json:"nrfCert,omitempty"`
 	HorizonS   int       `json:"horizonS,omitempty"`
+	Cgf        bool      `json:"cgf,omitempty"` // CDR transfer enabled, towards a modelled FTP server
 	DelayMs    int       `json:"delayMs,omitempty"`
 	VolLimit   int32     `json:"volLimit,omitempty"`
 	VolLimPDU  int32     `json:"volLimPDU,omitempty"`
@@ -261,6 +264,7 @@ func runWorld(t *testing.T, cfg WorldCfg, devs map[int]int, body func(w *World),
 			self := chf_context.GetSelf()
 			reflect.ValueOf(self).Elem().FieldByName("LocalRecordSequenceNumber").SetUint(cfg.LocalSeq) // (by reflection: the harness must build whatever the counter's width)
 			self.OAuth2Required = cfg.OAuth
+			cgfSetup(cfg)
 			var wg sync.WaitGroup
 			if !cfg.NoRF {
 				wg.Add(1)
@@ -424,6 +428,29 @@ type Snap struct {
 	Notes    int               `json:"notes"`
 	DBGets   int               `json:"dbGets"`
 	DBPuts   int               `json:"dbPuts"`
+	Cgf      *CgfSnap          `json:"cgf,omitempty"`
+}
+
+// CgfSnap: the billing domain's end of the CDR transfer (modelled FTP server).
+type CgfSnap struct {
+	Stale    []string `json:"stale"`    // files whose copy at the server differs from the CHF's current file
+	Missing  []string `json:"missing"`  // files written by the CHF that the server does not hold
+	Overlaps []string `json:"overlaps"` // commands sent on a control connection while another one awaited its reply
+	Stors    int      `json:"stors"`
+	Logins   int      `json:"logins"`
+}
+
+const cgfAddr = "127.0.0.1:2121"
+
+// cgfSetup puts the CDR transfer into the configured state (called at world set-up, scheduler-managed or free).
+func cgfSetup(cfg WorldCfg) {
+	ftp.MemReset()
+	if cfg.Cgf {
+		ftp.MemServe(cgfAddr)
+		chf_cgf.VerifEnable(cgfAddr)
+	} else {
+		chf_cgf.VerifDisable()
+	}
 }
 
 func balKey(supi string, rg int32) string { return fmt.Sprintf("%s/%d", supi, rg) }
@@ -485,6 +512,25 @@ func (w *World) snapshot(withGor bool) Snap {
 	s.Notes = len(notes)
 	notesMu.Unlock()
 	s.DBGets, s.DBPuts = mongoapi.Gets, mongoapi.Puts
+	if srv := ftp.MemServers[cgfAddr]; srv != nil {
+		c := &CgfSnap{Overlaps: append([]string(nil), ftp.MemOverlaps...), Stors: len(srv.Stors), Logins: srv.Logins}
+		var names []string
+		for n := range vos.Files {
+			names = append(names, n)
+		}
+		sort.Strings(names)
+		for _, n := range names {
+			base := filepath.Base(n)
+			got, ok := srv.Files[base]
+			switch {
+			case !ok:
+				c.Missing = append(c.Missing, base)
+			case !bytes.Equal(got, vos.Files[n]):
+				c.Stale = append(c.Stale, base)
+			}
+		}
+		s.Cgf = c
+	}
 	return s
 }
 
